@@ -80,6 +80,7 @@ K['vf_cjoin_ll'] = ([TWO, FR('on', 'ids', 'xn', 'xids', 'yn', 'yids')], OWS('on'
 K['vf_cjoin_rl'] = ([TWO, FR('on', 'ids', 'yn', 'yids')], OWS('on', 'ids', 'yn', 'yids'), [JR, seq('yn', 'yids', YB, 2) % 'n2', NEVER(('a0', 'a1')), ONCE('n2', ('b0', 'b1')), NORM], 'container::join(rvalue, lvalue): the lvalue is intact (also when the first container is empty), the rvalue elements are never copied')
 K['vf_cjoin_lr'] = ([TWO, FR('on', 'ids', 'xn', 'xids')], OWS('on', 'ids', 'xn', 'xids'), [JR, seq('xn', 'xids', XA, 2) % 'n1', ONCE('n1', ('a0', 'a1')), NEVER(('b0', 'b1')), NORM], 'container::join(lvalue, rvalue): the lvalue is intact, the rvalue elements are never copied')
 K['vf_cpop_back'] = ([SRC3, FR('sn', 'sids')], OWS('sn', 'sids'), ['__CPROVER_return_value == (n == 0 ? (u32)-1 : %s)' % E3('(n - 1)'), seq('sn', 'sids', E3) % '(n == 0 ? 0 : n - 1)', NOCOPY, NORM], 'container::pop_back: the last element is moved out (never copied), the rest is intact')
+K['vf_cpop_back_ne'] = ([SRC3, FR('sn', 'sids')], OWS('sn', 'sids'), ['__CPROVER_return_value == (n == 0 ? (u32)-1 : %s)' % E3('(n - 1)'), seq('sn', 'sids', E3) % '(n == 0 ? 0 : n - 1)', NOCOPY, NORM], 'container::pop_back with an element type whose move constructor is not noexcept: the last element is still MOVED out (never copied)')
 K['vf_cmove_clear'] = ([SRC3, FR('on', 'ids', 'sn')], OWS('on', 'ids', 'sn'), [seq('on', 'ids', E3) % 'n', '*sn == 0', NOCOPY, NORM], 'move_clear: the result holds all elements (moved, never copied), the argument is left empty')
 
 K['vf_cget_or_insert'] = (['n <= 2 && (n < 2 || k0 != k1) && ' + IDC('a0', 'a1', 'fresh'), '__CPROVER_is_fresh(inserted, 1) && __CPROVER_is_fresh(on, 8) && __CPROVER_is_fresh(ids, 16)'], ['*inserted'] + OWS('on', 'ids'),
